@@ -169,6 +169,26 @@ def run(pid, tier, seed, replay=None):
         name = ch * L_
         t = 'TERM %s = 1 %s = 2 ;\nS : %s ;\n' % (name, name, name)
         add('twice', {'name_length': L_, 'char': ch}, ['NEW 0', 'DESC 0 0 %s' % hx(t), 'ERR 0', 'FREEG 0'])
+    # 11. one syntax error followed by hundreds of correct tokens, in grammars whose sets keep expecting `error': the search
+    #     for the best recovery must stay bounded (recovery alternatives of equal cost are cut off)
+    for _ in range(12 if quick else 120):
+        kind_ = rng.choice(['list', 'stmts', 'blocks'])
+        if kind_ == 'list':
+            gd = {'terms': [('b', 98), ('x', 120)], 'rules': [('L', ['L', 'b'], None, 0, None), ('L', ['L', 'error'], None, 0, None), ('L', [], None, 0, None)]}
+            good, bad = [98], [120]
+        elif kind_ == 'stmts':
+            gd = {'terms': [('a', 97), (';', 59), ('x', 120)], 'rules': [('P', ['P', 'S'], 'p', 0, [0, 1]), ('P', ['S'], None, 0, [0]), ('S', ['a', ';'], 's', 0, []), ('S', ['error', ';'], 'e', 0, [])]}
+            good, bad = [97, 59], [120] if rng.random() < 0.5 else [97, 97]
+        else:
+            gd = {'terms': [('{', 123), ('}', 125), ('s', 115), ('x', 120)],
+                  'rules': [('G', ['G', 'K'], 'g', 0, [0, 1]), ('G', ['K'], None, 0, [0]), ('K', ['{', 'L', '}'], 'k', 0, [1]), ('K', ['{', 'error', '}'], 'e', 0, []),
+                            ('L', ['L', 's'], None, 0, None), ('L', ['s'], None, 0, None)]}
+            good, bad = [123, 115, 115, 125], [123, 115, 120, 125]
+        n_ = rng.choice([40, 80, 200, 400])
+        toks = good * rng.randint(0, 3) + bad + good * n_
+        add('longrecovery', {'grammar': yvlib.grammar_text(gd)[:300], 'tokens_after_the_error': len(good) * n_},
+            ['NEW 0', 'SET 0 0 %d' % rng.choice([0, 1, 2]), 'SET 0 5 %d' % rng.choice([1, 2, 3, 3, 5])] + yvlib.script_read(0, gd, 0) +
+            ['PARSE 0 0 %d %s' % (len(toks), ' '.join(map(str, toks))), 'FREEG 0', 'FREET 0 1'])
     # 10. a rule with more right hand side symbols than a short can count (the dot position of a situation)
     for n in ([32769] if quick else [32767, 32768, 33000, 40000]):
         gd = {'terms': [('a', 97), ('b', 98)], 'rules': [('S', ['a'] * (n - 1) + ['b'], None, 0, None)]}
